@@ -143,6 +143,8 @@ fn counting_case<T: CElem>(ctx: &Ctx, rep: &mut Report, case: u64, g: &mut Sm64)
         done += (n_collect + n_discard) as u64;
         rep.held();
         rep.distinct(("count", T::NAME, n_chains, n_collect, n_discard, dim, threads));
+        rep.distinct_in("(n_chains, n_collect, n_discard) grid points", (n_chains, n_collect, n_discard));
+        rep.distinct_in("rayon pool sizes", threads);
     }
     rep.count("counting_histories");
     rep.sample(json!({"monitor": mon, "T": T::NAME, "n_chains": n_chains, "dim": dim, "threads": threads, "runs(n_collect,n_discard)": history}));
